@@ -11,11 +11,12 @@ VARIABLES srcv, rulesv
 svars == <<vars, srcv, rulesv>>
 
 (* ---- node / entry helpers *)
-Reg(c, sz, mt, ns, perm) == [t |-> "reg", c |-> c, sz |-> sz, mt |-> mt, ns |-> ns, perm |-> perm, tgt |-> ""]
-Dir(perm) == [t |-> "dir", c |-> 0, sz |-> 0, mt |-> 1000, ns |-> 0, perm |-> perm, tgt |-> ""]
-Lnk(tgt) == [t |-> "lnk", c |-> 0, sz |-> 0, mt |-> 1000, ns |-> 0, perm |-> 511, tgt |-> tgt]
-Spc(ty, perm) == [t |-> ty, c |-> 0, sz |-> 0, mt |-> 1000, ns |-> 0, perm |-> perm, tgt |-> ""]
-Ent(name, n) == [name |-> name, t |-> n.t, c |-> n.c, sz |-> n.sz, mt |-> n.mt, perm |-> n.perm, tgt |-> n.tgt]
+Reg(c, sz, mt, ns, perm) == [t |-> "reg", c |-> c, sz |-> sz, mt |-> mt, ns |-> ns, perm |-> perm, tgt |-> "", uid |-> 0, gid |-> 0]
+Own(n, u, g) == [n EXCEPT !.uid = u, !.gid = g]
+Dir(perm) == [t |-> "dir", c |-> 0, sz |-> 0, mt |-> 1000, ns |-> 0, perm |-> perm, tgt |-> "", uid |-> 0, gid |-> 0]
+Lnk(tgt) == [t |-> "lnk", c |-> 0, sz |-> 0, mt |-> 1000, ns |-> 0, perm |-> 511, tgt |-> tgt, uid |-> 0, gid |-> 0]
+Spc(ty, perm) == [t |-> ty, c |-> 0, sz |-> 0, mt |-> 1000, ns |-> 0, perm |-> perm, tgt |-> "", uid |-> 0, gid |-> 0]
+Ent(name, n) == [name |-> name, t |-> n.t, c |-> n.c, sz |-> n.sz, mt |-> n.mt, perm |-> n.perm, tgt |-> n.tgt, uid |-> n.uid, gid |-> n.gid]
 EmptyFs == [p \in Paths |-> IF p = "." THEN Dir(493) ELSE Absent]
 With(f, p, n) == [f EXCEPT ![p] = n]
 
@@ -114,14 +115,16 @@ C11Perms == {0, 256, 365, 420, 511, 128}            \* 0000 0400 0555 0644 0777 
 C11Src(fp, dp, mt) ==
   With(With(With(With(With(With(With(With(EmptyFs, "d", Dir(dp)), "d/f", Reg(1, 20, mt, 0, fp)),
        "dev", Spc("chr", fp)), "f", Reg(2, 30, mt, 0, fp)), "k", Spc("fifo", fp)), "l", Lnk("d/f")), "ro", Dir(365)), "ro/f", Reg(3, 9, mt, 0, 292))
-C11SrcX(fp, dp, mt) == With(With(C11Src(fp, dp, mt), "e", Reg(5, 0, mt, 0, fp)), "g", Reg(6, 12, mt, 0, fp))   \* an EMPTY file and a file whose old copy is empty
+C11SrcX(fp, dp, mt) ==     \* an EMPTY file and a file whose old copy is empty; owners and groups other than the receiving user's
+  LET x == With(With(C11Src(fp, dp, mt), "e", Reg(5, 0, mt, 0, fp)), "g", Reg(6, 12, mt, 0, fp))
+  IN With(With(With(With(x, "f", Own(x["f"], 1234, 4321)), "d", Own(x["d"], 1234, 0)), "d/f", Own(x["d/f"], 0, 4321)), "l", Own(x["l"], 1234, 4321))
 C11Prior(kind, mt) ==
   IF kind = "absent" THEN EmptyFs
   ELSE With(With(With(With(With(With(With(EmptyFs, "d", Dir(448)), "d/f", Reg(1, 20, mt - 1, 600000000, 384)),   \* same content, other perm, mtime 0.4 s before the source's
-       "f", Reg(8, 30, 777, 0, 416)), "l", Lnk("zzz")), "ro", Dir(493)), "e", Reg(9, 7, 777, 0, 384)), "g", Reg(9, 0, 777, 0, 384))
+       "f", Own(Reg(8, 30, 777, 0, 416), 7, 7)), "l", Lnk("zzz")), "ro", Dir(493)), "e", Reg(9, 7, 777, 0, 384)), "g", Reg(9, 0, 777, 0, 384))
 C11Scn ==
-  { Scn(C11Prior(k, mt), ListOf(C11SrcX(fp, dp, mt)), OX(TRUE, l, p, t, TRUE, TRUE, c, FALSE, FALSE, FALSE), 0, {}) :
-      k \in {"absent", "present"}, fp \in C11Perms, dp \in {493, 365, 448, 320}, mt \in {1000, 1, 2000000000, 0 - 2, 0 - 2000000000},
+  { Scn(C11Prior(k, mt), ListOf(C11SrcX(fp, dp, mt)), OG(OX(TRUE, l, p, t, TRUE, TRUE, c, FALSE, FALSE, FALSE), og, og), 0, {}) :
+      og \in BOOLEAN, k \in {"absent", "present"}, fp \in C11Perms, dp \in {493, 365, 448, 320}, mt \in {1000, 1, 2000000000, 0 - 2, 0 - 2000000000},
       l \in BOOLEAN, p \in BOOLEAN, t \in BOOLEAN, c \in BOOLEAN }
 
 (* =================================================================== C13 *)
